@@ -1,5 +1,6 @@
 import ServiceModel.Proofs.Reachable
 import ServiceModel.Proofs.ModSvc
+import ServiceModel.Proofs.RestartStable
 /-!
 # C14 — An available binding always holds the minimum deposit for its price
 -/
@@ -111,6 +112,22 @@ theorem available_holds_minimum_after_module_service_call (hc : CfgOK cfg p) {s 
   have hB := callMod_invB s id svc prov cons cap inputOk code out (reachable_inv hc hr) hcons
   obtain ⟨pr, md, hpr, hmd, hle⟩ := hB.minDep k b hb hav
   obtain ⟨pr2, hpr2, hparse, _⟩ := hB.priced k b hb
+  rw [hpr] at hpr2; injection hpr2 with hpr2; subst hpr2
+  exact ⟨pr, hpr, hparse, by rw [← minDeposit_eq_max _ _ _ hmd]; exact hle⟩
+
+/-- The same in every state of a chain that goes through any number of zero-height restarts: the import rebuilds the
+    price terms of every binding, available or not, so the minimum on the restarted chain is the minimum for the
+    published price. -/
+theorem available_holds_minimum_across_restarts (hc : CfgOK cfg p) {s : State} (hr : ReachableR cfg p h0 t0 s)
+    (k : SvcName × Addr) (b : Binding) (hb : Map.get s.bindings k = some b) :
+    (∃ pr, Map.get s.pricing k = some pr ∧ parsePricing b.text = .ok pr) ∧
+    (b.avail = true → ∃ pr, Map.get s.pricing k = some pr ∧ parsePricing b.text = .ok pr ∧
+      max s.params.minDep (pr.base * s.params.mult) ≤ b.deposit) := by
+  have hB := (reachableR_invAll hc hr).inv.b
+  obtain ⟨pr2, hpr2, hparse, _⟩ := hB.priced k b hb
+  refine ⟨⟨pr2, hpr2, hparse⟩, ?_⟩
+  intro hav
+  obtain ⟨pr, md, hpr, hmd, hle⟩ := hB.minDep k b hb hav
   rw [hpr] at hpr2; injection hpr2 with hpr2; subst hpr2
   exact ⟨pr, hpr, hparse, by rw [← minDeposit_eq_max _ _ _ hmd]; exact hle⟩
 
